@@ -580,7 +580,29 @@ class DataOps:
             res = src.obj.copy()
         except Exception as e:
             return self._raise('copy', e)
-        self._finish('copy', [(res, deepcopy(src.sem))], [src.sid], sig=(src.op,))
+        prod = self._finish('copy', [(res, deepcopy(src.sem))], [src.sid], sig=(src.op,))
+        keys = sorted(k for k in res.descriptors if k in ('sess', 'subj') and k not in res.obs_descriptors)
+        if o['flag'] and keys and prod and prod[0].alive and prod[0].sem is not None and src.sem is not None:
+            # what a copy is for: the copy is given another session / subject label (an entry of its dataset-level
+            # descriptors is assigned); the rows of the source keep the label they had
+            k = keys[o['a'][0] % len(keys)]
+            old = res.descriptors[k]
+            new = old + 'x' if isinstance(old, str) else old + 10
+            res.descriptors[k] = new
+            remap = dict(prod[0].sem.get('remap') or {})
+            prev = remap.get(('obs', k)) or {}
+            labels = {norm(v.get(k)) for v in self.obs_tab.values() if k in v}
+            remap[('obs', k)] = {L: (new if norm(prev.get(L, L)) == norm(old) else prev.get(L, L)) for L in labels}
+            prod[0].sem = {**prod[0].sem, 'remap': remap}
+            from .fp import fp_any
+            prod[0].snap = fp_any(res)
+            self.check(prod[0], 'copy:relabelled')
+            if fp_any(src.obj) != src.snap:
+                self.pool.report('C11', 'dataset_twin.copy', 'copy:source-follows-copy:descriptors',
+                                 f'after copy() the dataset-level descriptor {k!r} of the copy was set to {new!r}: the source now says '
+                                 f'{src.obj.descriptors.get(k)!r} (it had {old!r})')
+                src.snap, src.sem, src.alive = fp_any(src.obj), None, False
+            self.ctx.probe('copy_then_relabelled')
 
     def op_merge(self, o):
         from rsatoolbox.data.ops import merge_datasets
